@@ -258,6 +258,7 @@ int main(int argc, char** argv) {
     int par = (int)a.num("workers", 6);
     if (par > 16) par = 16;
     int chunk = (int)a.num("chunk", 40);
+    int maxThreads = (int)a.num("max-threads", 3);
     std::string out = a.str("out", "/dev/stdout");
     g_tmpdir = a.str("tmp", "/verif/build/run");
     mkdir(g_tmpdir.c_str(), 0755);
@@ -346,6 +347,7 @@ int main(int argc, char** argv) {
     for (const Scenario& sc : SCENARIOS) {
         if (!only.empty() && only != sc.name) continue;
         int n = (int)sc.bodies.size();
+        if (n > maxThreads) continue;
         std::vector<int> all(n); for (int i = 0; i < n; i++) all[i] = i;
         // solo reference digests
         std::vector<std::string> ref(n);
